@@ -176,9 +176,8 @@ theorem rankC_run (ls : List Label) : ∀ (s s' : St) (n : Nat) (c : Call), c.ct
     | none => simp [hs] at h
     | some s1 =>
       simp only [hs] at h
-      obtain ⟨c1, hc1, hx1, hcs⟩ := caller_step hs hc
-      rw [hx] at hcs
-      obtain ⟨c', hc', hx', hb⟩ := ih s1 s' n c1 (hx1 hx) h hc1
+      obtain ⟨c1, hc1, hx1, hcs⟩ := caller_step_ctx_mono hs hc hx
+      obtain ⟨c', hc', hx', hb⟩ := ih s1 s' n c1 hx1 h hc1
       have := cstep_rankC hcs
       exact ⟨c', hc', hx', by rw [ownSteps_cons]; omega⟩
 
